@@ -582,6 +582,11 @@ func sendUDP(r *stack.Route, data buffer.VectorisedView, localPort, remotePort u
 	// Initialize the header.
 	udp := header.UDP(hdr.Prepend(header.UDPMinimumSize))
 
+	if hdr.UsedLength()+data.Size() > math.MaxUint16 {
+		// The UDP length field is 16 bits: header plus payload must fit.
+		return tcpip.ErrMessageTooLong
+	}
+
 	// 得到报文的长度
 	length := uint16(hdr.UsedLength() + data.Size())
 	// UDP首部的编码
